@@ -89,3 +89,10 @@ Theorem C08_wf_store_reading : forall ctr tr, WF_store ctr tr -> t_null tr = fal
   WFL ctr (t_layers tr) None.
 Proof. intros ctr tr H Hn. unfold WF_store in H. rewrite Hn in H. exact H. Qed.
 Print Assumptions C08_wf_store_reading.
+
+(** ** ... and after histories that contain scans and list_storages as well (SysScanProofs) *)
+From Yk Require Import SysScanProofs.
+Theorem C08_wf_reachable_all_ops : forall ops, Forall op_bytes ops ->
+  SysInv (fst (exec_all sys_init ops)) (fst (spec_exec_all spec_init ops)).
+Proof. intros ops Hb. exact (proj1 (reachable_inv2 ops Hb)). Qed.
+Print Assumptions C08_wf_reachable_all_ops.
